@@ -35,7 +35,7 @@ ASSUMPTIONS = [
   "statistic extent fixed to 2 so that znear is the same in all scenes (one kernel specialisation for in-kernel rays)",
 ]
 BUDGET = {
-  "quick": dict(examples=224, seconds=150, workers=16),
+  "quick": dict(examples=224, seconds=420, workers=16),
   "thorough": dict(examples=6000, seconds=1500, workers=16),
 }
 _GT = mujoco.mjtGeom
